@@ -441,6 +441,32 @@ func bitProfileOf(f *ssa.Function) bitProfile {
 	var evs []ev
 	for _, b := range f.Blocks {
 		for _, in := range b.Instrs {
+			// a per-coordinate helper of the same package (packBlockCoord(z)): its operations count at the call,
+			// with the helper's parameter named after the caller's value
+			if c, isCall := in.(*ssa.Call); isCall {
+				if h := c.Call.StaticCallee(); h != nil && h != f && len(h.Blocks) > 0 && h.Pkg == f.Pkg && len(c.Call.Args) >= 1 && bitProfileDepth < 3 {
+					bitProfileDepth++
+					sub := bitProfileOf(h)
+					bitProfileDepth--
+					p.and = append(p.and, sub.and...)
+					p.or = append(p.or, sub.or...)
+					p.shl = append(p.shl, sub.shl...)
+					p.shr = append(p.shr, sub.shr...)
+					name := ""
+					for _, rt := range roots(stripConv(c.Call.Args[0]), f) {
+						if pr, ok := rt.V.(*ssa.Parameter); ok {
+							name = pr.Name()
+						}
+					}
+					for _, e := range sub.events {
+						if i := strings.Index(e, ":"); i >= 0 && strings.HasPrefix(e, "&") {
+							e = e[:i+1] + name
+						}
+						evs = append(evs, ev{c.Pos(), e})
+					}
+				}
+				continue
+			}
 			bo, ok := in.(*ssa.BinOp)
 			if !ok {
 				continue
@@ -478,12 +504,14 @@ func bitProfileOf(f *ssa.Function) bitProfile {
 			}
 		}
 	}
-	sort.Slice(evs, func(i, j int) bool { return evs[i].pos < evs[j].pos })
+	sort.SliceStable(evs, func(i, j int) bool { return evs[i].pos < evs[j].pos })
 	for _, e := range evs {
 		p.events = append(p.events, e.s)
 	}
 	return p
 }
+
+var bitProfileDepth int
 
 func allEq(xs []uint64, n int) (uint64, bool) {
 	if len(xs) != n {
@@ -612,6 +640,12 @@ func shiftDepth(v ssa.Value, depth int) int {
 			return d + 1
 		}
 		return shiftDepth(x.X, depth+1)
+	case *ssa.Call:
+		// a per-coordinate helper applied to the (shifted) packed value
+		if h := x.Call.StaticCallee(); h != nil && inRepo(h) && len(x.Call.Args) == 1 {
+			return shiftDepth(x.Call.Args[0], depth+1)
+		}
+		return -1
 	case *ssa.Parameter:
 		return 0
 	}
